@@ -115,7 +115,7 @@ def registered_filters(query) -> list:
     _joins(query['src'], joins)
     for j in joins:
         c = j.get('cond')
-        if c is not None and not (is_bare_eq(c) and not _hash_equal(c['l'], c['r'])):
+        if c is not None:  # every join condition is registered (fix commit 7e9285a)
             out.append(('join', c))
     return out
 
@@ -222,29 +222,29 @@ def triggers(stmt) -> set:
 
 
 # ---- exact attribution of unsafe row filters (C14) -----------------------------------------------------------------------------
-CAUSES = ('mixed-table-ref', 'filter-not', 'or-one-sided', 'outer-on-factor', 'shared-segment')
+CAUSES = ('shared-segment',)
 
 
 def factor_safety(pred, table):
     """How the factor ``pred.factors[table]`` relates to the rows of ``table`` that can pass ``pred``:
-    None = no factor for the table, 'safe' = implied by the predicate, else the cause that makes it unsafe."""
+    None = no factor for the table, 'safe' = implied by the predicate.
+
+    Models the factorisation as repaired by the fix commits a06392b (a comparison involving anything but the one table is
+    no factor), 4d05a86 (a negation is a factor only as a whole), d6e5ea9 (a disjunction restricts a table only if both
+    sides do): every factor that is produced is implied by the predicate."""
     f = pred['f']
     if f in _LEAF_PREDS:
-        if direct_tables(pred) != {table}:
+        if direct_tables(pred) != {table} or has_elem(pred):
             return None
-        return 'mixed-table-ref' if has_elem(pred) else 'safe'
+        return 'safe'
     if f == 'not':
-        inner = factor_safety(pred['x'], table)
-        return None if inner is None else (inner if inner not in ('safe',) else 'filter-not')
+        return 'safe' if direct_tables(pred) == {table} and not has_elem(pred) else None
     if f in ('and', 'or'):
         left, right = factor_safety(pred['l'], table), factor_safety(pred['r'], table)
         if left is None and right is None:
             return None
         if f == 'or' and (left is None or right is None):
-            return 'or-one-sided'
-        for side in (left, right):
-            if side not in (None, 'safe'):
-                return side
+            return None
         return 'safe'
     return None
 
@@ -257,7 +257,7 @@ def _registered_with_joins(query) -> list:
     _joins(query['src'], joins)
     for j in joins:
         c = j.get('cond')
-        if c is not None and not (is_bare_eq(c) and not _hash_equal(c['l'], c['r'])):
+        if c is not None:
             out.append(('join', c, j))
     return out
 
@@ -277,6 +277,8 @@ def scan_factor_causes(stmt) -> list:
     for info in scan_infos(stmt):
         table, entries = info['table'], []
         for clause, pred, join in _registered_with_joins(info['query']):
+            if join is not None and join['kind'] != 'inner':
+                continue  # the condition of an outer join only registers its columns (fix commit 99a7508)
             safety = factor_safety(pred, table)
             if safety is None:
                 continue
@@ -286,10 +288,6 @@ def scan_factor_causes(stmt) -> list:
                 n.get('f') == 'isnull' and direct_tables(n) == {table} for n in A.walk(pred)
             ):
                 safety = 'null-side-isnull'  # implied for contributing rows, yet dropping others un-matches preserved rows
-            elif safety == 'safe' and join is not None:
-                preserved = {'left': [join['left']], 'right': [join['right']], 'full': [join['left'], join['right']]}.get(join['kind'], [])
-                if any(_has_direct_table(side, table) for side in preserved):
-                    safety = 'outer-on-factor'
             entries.append(safety)
         out.append(entries)
     return out
